@@ -86,7 +86,8 @@ func (r *schemaLoader) transitiveResolver(basePath string, ref Ref) *schemaLoade
 
 	baseRef := MustCreateRef(basePath)
 	currentRef := normalizeRef(&ref, basePath)
-	if strings.HasPrefix(currentRef.String(), baseRef.String()) {
+	if cur, base := currentRef.String(), baseRef.String(); cur == base || strings.HasPrefix(cur, base+"#") {
+		// still in the same document (the location of another document may start with this one's)
 		return r
 	}
 
